@@ -41,6 +41,7 @@ type c11Sess struct {
 	id          string
 	remoteEstab bool
 	seq         uint64
+	opened      time.Time
 }
 
 func (c *c11Sess) reader() {
@@ -153,7 +154,7 @@ func execC11(b []byte) vx.Verdict {
 	connected := map[string]*c11Sess{} // model: id -> session
 	open := func() *c11Sess {
 		p := vx.NewSessionPair(vx.LinkSpec{Ordered: true}, nil)
-		c := &c11Sess{pair: p, state: "new"}
+		c := &c11Sess{pair: p, state: "new", opened: time.Now()}
 		go c.reader()
 		if !be.Offer(p.A, 5*time.Second) {
 			return nil
@@ -197,7 +198,7 @@ func execC11(b []byte) vx.Verdict {
 			return &v
 		}
 		// the reject message is sent before closing; on an ordered link it must have arrived
-		if vx.WaitFor(2*time.Second, 5*time.Millisecond, func() string {
+		if vx.WaitFor(150*time.Millisecond, 5*time.Millisecond, func() string {
 			if c.rejected() {
 				return ""
 			}
@@ -278,6 +279,7 @@ func execC11(b []byte) vx.Verdict {
 	}
 	handshake := func(c *c11Sess, id string, step int) *vx.Verdict {
 		ok, why := admissible(id)
+		vx.Debugf("step %d handshake id=%q admissible=%v closedBySUT=%v state=%s", step, id, ok, c.closedBySUT(), c.state)
 		c.id = id
 		_ = c.pair.B.Send(hello(c, id))
 		if ok {
@@ -296,6 +298,14 @@ func execC11(b []byte) vx.Verdict {
 		if len(sessions) == 0 && st.K != "open" && st.K != "race" {
 			if open() == nil {
 				return vx.Inconclusive("backend refused session")
+			}
+		}
+		// a session that has not completed a handshake is given up by the node after ten one-second hello attempts; the
+		// harness retires such sessions itself well before that (8 s) so that the model never races with the give-up timer
+		for _, x := range sessions {
+			if x.state == "new" && time.Since(x.opened) > 8*time.Second {
+				x.pair.Cut()
+				x.state = "closed"
 			}
 		}
 		var c *c11Sess
@@ -389,47 +399,67 @@ func execC11(b []byte) vx.Verdict {
 			}
 			c.state = "closed"
 		case "race":
-			if len(sessions) > 3 {
+			if len(sessions) > 24 {
 				continue
 			}
-			a, b2 := open(), open()
-			if a == nil || b2 == nil {
-				return vx.Inconclusive("backend refused session")
+			k := 2 + st.Cost4%7 // 2..8 simultaneous sessions announcing the same ID
+			var racers []*c11Sess
+			for j := 0; j < k; j++ {
+				c := open()
+				if c == nil {
+					return vx.Inconclusive("backend refused session")
+				}
+				c.id = pid
+				racers = append(racers, c)
 			}
 			ok, why := admissible(pid)
-			a.id, b2.id = pid, pid
-			ha, hb := hello(a, pid), hello(b2, pid)
+			start := make(chan struct{})
 			var wg sync.WaitGroup
-			wg.Add(2)
-			go func() { defer wg.Done(); _ = a.pair.B.Send(ha) }()
-			go func() { defer wg.Done(); _ = b2.pair.B.Send(hb) }()
+			for _, c := range racers {
+				wg.Add(1)
+				h := hello(c, pid)
+				go func(c *c11Sess, h []byte) { defer wg.Done(); <-start; _ = c.pair.B.Send(h) }(c, h)
+			}
+			close(start)
 			wg.Wait()
-			labels = append(labels, "race")
+			labels = append(labels, fmt.Sprintf("race-of-%d", k))
 			nontrivial = true
 			if !ok {
-				for _, c := range []*c11Sess{a, b2} {
+				for _, c := range racers {
 					if v := expectRejected(c, why, i); v != nil {
 						return *v
 					}
 				}
 				break
 			}
-			// exactly one of the twins is established, the other rejected
+			// exactly one of the racers is established, the others are rejected
+			open := func() []*c11Sess {
+				var o []*c11Sess
+				for _, c := range racers {
+					if !c.closedBySUT() {
+						o = append(o, c)
+					}
+				}
+				return o
+			}
 			msg := vx.WaitFor(20*time.Second, 5*time.Millisecond, func() string {
-				ca, cb := a.closedBySUT(), b2.closedBySUT()
-				if ca == cb {
-					return fmt.Sprintf("twin sessions closed: %v %v", ca, cb)
+				if n := len(open()); n != 1 {
+					return fmt.Sprintf("%d of %d simultaneous sessions are still open", n, k)
 				}
 				return ""
 			})
 			if msg != "" {
-				return vx.Violation("one-per-id", "C11/twins", "step %d: two simultaneous sessions announcing %q: %s (exactly one must survive)", i, pid, msg)
+				return vx.Violation("one-per-id", "C11/twins", "step %d: %d simultaneous sessions announcing %q: %s (exactly one must survive, the others must be rejected)", i, k, pid, msg)
 			}
-			win, lose := a, b2
-			if a.closedBySUT() {
-				win, lose = b2, a
+			time.Sleep(20 * time.Millisecond)
+			if n := len(open()); n != 1 {
+				return vx.Violation("one-per-id", "C11/twins", "step %d: %d sessions announcing %q open after settling", i, n, pid)
 			}
-			win.state, lose.state = "established", "closed"
+			for _, c := range racers {
+				c.state = "closed"
+			}
+			win := open()[0]
+			win.state = "established"
 			connected[pid] = win
 		}
 		if v := checkPicture(i); v != nil {
